@@ -60,6 +60,12 @@ impl WriteGuard {
         ensures *final(w) == (World { registry: old(w).registry.insert(key.id(), v.val()), ..*old(w) }),
                 r is Some <==> old(w).registry.dom().contains(key.id()), r is Some ==> r->0.val() == old(w).registry[key.id()]
     { unimplemented!() }
+    // HashMap::entry(k).or_insert(v): inserts only if the key is vacant; an occupied entry (even of a terminated instance) is left as it is
+    #[verifier::external_body]
+    pub fn entry_or_insert(&mut self, key: TypeIdV, v: AnyBoxObj, Tracked(w): Tracked<&mut World>)
+        requires old(w).locked,                                                                                               // @ob lock.registry-written-under-lock C08
+        ensures *final(w) == (World { registry: if old(w).registry.dom().contains(key.id()) { old(w).registry } else { old(w).registry.insert(key.id(), v.val()) }, ..*old(w) })
+    { unimplemented!() }
     #[verifier::external_body]
     pub fn remove(&mut self, key: &TypeIdV, Tracked(w): Tracked<&mut World>) -> (r: Option<AnyBoxObj>)
         requires old(w).locked,                                                                                               // @ob lock.registry-written-under-lock C08
